@@ -949,7 +949,7 @@ theorem splitBatches_flatten {α : Type} (cuts : List Nat) (fuel pos : Nat) (xs 
 theorem startWalk_spec (b : Int) (blocks : List (Nat × Option Int)) (pre : Nat)
     (hall : ∀ x ∈ blocks, ∃ fv, x.2 = some fv) :
     ∃ res, startWalk b blocks pre = .ok res ∧
-      (res = pre ∨ ∃ x ∈ blocks, x.1 = res ∧ ∃ fv, x.2 = some fv ∧ fv ≤ b) := by
+      (res = pre ∨ ∃ x ∈ blocks, x.1 = res ∧ ∃ fv, x.2 = some fv ∧ fv < b) := by
   induction blocks generalizing pre with
   | nil => exact ⟨pre, rfl, Or.inl rfl⟩
   | cons x rest ih =>
